@@ -12,7 +12,8 @@ define("pop_wf", ["s", "X"],
        "valid(s.comparator) and forall(lambda a: valid(X[a]) and valid(X[a].features) and owner(X[a].features) is X[a] and "
        "valid(X[a].costs_signed), 0, len(X)) and "
        "forall(lambda a, b: implies(a != b, X[a] is not X[b] and X[a].id != X[b].id), (0, len(X)), (0, len(X)), trig=lambda a, b: (X[a], X[b])) and "
-       "forall(lambda a, b: wfI(X[a], X[b]) and cmp_ok(s.comparator, X[a].costs_signed, X[b].costs_signed), (0, len(X)), (0, len(X)))")
+       "forall(lambda a, b: wfI(X[a], X[b]) and cmp_ok(s.comparator, X[a].costs_signed, X[b].costs_signed), (0, len(X)), (0, len(X))) and "
+       "forall(lambda a: len(X[a].costs_signed) == len(X[0].costs_signed) and len(X[a].costs_signed) >= 2, 0, len(X))")
 
 # id lookup used by the peeling phase
 contract("artap.operators:Selector.individual", props=["C02"],
@@ -70,14 +71,24 @@ define("doml_wf", ["X", "n"],
        "forall(lambda c: valid(doml(X[c])) and fresh(doml(X[c])), 0, n) and "
        "forall(lambda c, d: implies(c != d, doml(X[c]) is not doml(X[d])), (0, n), (0, n)) and "
        "forall(lambda c: forall(lambda t: exists(lambda b: doml(X[c])[t] == X[b].id, 0, len(X)), 0, len(doml(X[c]))), 0, n)")
+# every entry of x's `dominate` list is the id of a member that x dominates (in the sorter's reading of the verdicts)
+define("doml_sound", ["s", "X"],
+       "forall(lambda c: forall(lambda t: exists(lambda b: doml(X[c])[t] == X[b].id and domidx(s, X, c, b), 0, len(X)), "
+       "0, len(doml(X[c]))), 0, len(X))")
+# every member of a later front is dominated by a member of the previous front: a front number never exceeds the true rank
+define("prev_dom", ["s", "X"],
+       "forall(lambda c: implies(not is_none(fr(X[c])) and fr(X[c]) > 1, "
+       "exists(lambda b: domidx(s, X, b, c) and not is_none(fr(X[b])) and fr(X[b]) == fr(X[c]) - 1, 0, len(X))), 0, len(X))")
 define("front1_exact", ["s", "X"], "forall(lambda c: (not is_none(fr(X[c])) and fr(X[c]) == 1) == nondom(s, X, c), 0, len(X))")
 define("fronts_pos", ["X"], "forall(lambda c: is_none(fr(X[c])) or fr(X[c]) >= 1, 0, len(X))")
 # the front lists: members of the population that carry a front number, no member twice
 define("pf_wf", ["pf", "X"],
-       "fresh(pf) and forall(lambda k: valid(pf[k]) and fresh(pf[k]) and pf[k] is not pf, 0, len(pf)) and "
+       "fresh(pf) and pf is not X and forall(lambda k: valid(pf[k]) and fresh(pf[k]) and pf[k] is not pf and pf[k] is not X, 0, len(pf)) and "
        "forall(lambda k, l: implies(k != l, pf[k] is not pf[l]), (0, len(pf)), (0, len(pf))) and "
-       "forall(lambda k: forall(lambda t: not is_none(fr(pf[k][t])) and exists(lambda c: pf[k][t] is X[c], 0, len(X)), 0, len(pf[k])), 0, len(pf)) and "
-       "forall(lambda k: forall(lambda t, u: implies(t != u, pf[k][t] is not pf[k][u]), (0, len(pf[k])), (0, len(pf[k]))), 0, len(pf))")
+       "forall(lambda k: forall(lambda t: not is_none(fr(pf[k][t])) and fr(pf[k][t]) == k + 1 and exists(lambda c: pf[k][t] is X[c], 0, len(X)), "
+       "0, len(pf[k])), 0, len(pf)) and "
+       "forall(lambda k: forall(lambda t, u: implies(t != u, pf[k][t] is not pf[k][u]), (0, len(pf[k])), (0, len(pf[k]))), 0, len(pf)) and "
+       "forall(lambda k: forall(lambda t: len(pf[k][t].costs_signed) == len(X[0].costs_signed), 0, len(pf[k])), 0, len(pf))")
 _FMOD = ["each(individuals).features.front_number", "each(individuals).features.domination_counter",
          "each(individuals).features.dominate", "each(individuals).features.crowding_distance", "$list.Int", "$len.Int"]
 contract("artap.operators:Selector.fast_nondominated_sorting#front1", props=["C02"],
@@ -85,36 +96,51 @@ contract("artap.operators:Selector.fast_nondominated_sorting#front1", props=["C0
          locals={"pareto_front": "List[List[Ref[Individual]]]", "front_number": "Int", "p": "Ref[Individual]", "q": "Ref[Individual]",
                  "dom": "Int", "individual_id": "Int", "sub_front": "List[Ref[Individual]]", "individual": "Ref[Individual]"},
          requires=["pop_wf(self, individuals)"],
-         ensures=["front1_exact(self, individuals)", "fronts_pos(individuals)", "unchanged(individuals)"],
+         ensures=["front1_exact(self, individuals)", "fronts_pos(individuals)", "prev_dom(self, individuals)", "unchanged(individuals)"],
          loops={
              1: ["unchanged(individuals)", "fresh(pareto_front)", "len(pareto_front) == 1", "valid(pareto_front[0])", "fresh(pareto_front[0])",
                  "len(pareto_front[0]) == 0", "front_number == 1",
                  "forall(lambda c: cnt(individuals[c]) == 0 and is_none(fr(individuals[c])) and len(doml(individuals[c])) == 0, 0, _k)",
                  "doml_wf(individuals, _k)"],
              2: ["unchanged(individuals)", "front_number == 1", "len(pareto_front) == 1", "pf_wf(pareto_front, individuals)",
-                 "doml_wf(individuals, len(individuals))", "cnt_inv(self, individuals, _k, 0)",
+                 "doml_wf(individuals, len(individuals))", "doml_sound(self, individuals)", "cnt_inv(self, individuals, _k, 0)",
                  "forall(lambda c: (not is_none(fr(individuals[c])) and fr(individuals[c]) == 1) == nondom(self, individuals, c), 0, _k)",
                  "forall(lambda c: is_none(fr(individuals[c])) or fr(individuals[c]) == 1, 0, len(individuals))",
                  "forall(lambda c: is_none(fr(individuals[c])), _k, len(individuals))"],
              3: ["unchanged(individuals)", "front_number == 1", "len(pareto_front) == 1", "pf_wf(pareto_front, individuals)",
                  "i == _k2", "_k2 < len(individuals)", "p is individuals[_k2]", "_k3 <= len(individuals) - i - 1",
-                 "doml_wf(individuals, len(individuals))", "cnt_inv(self, individuals, i, i + 1 + _k3)",
+                 "doml_wf(individuals, len(individuals))", "doml_sound(self, individuals)", "cnt_inv(self, individuals, i, i + 1 + _k3)",
                  "forall(lambda c: (not is_none(fr(individuals[c])) and fr(individuals[c]) == 1) == nondom(self, individuals, c), 0, i)",
                  "forall(lambda c: is_none(fr(individuals[c])) or fr(individuals[c]) == 1, 0, len(individuals))",
                  "forall(lambda c: is_none(fr(individuals[c])), i, len(individuals))"],
              4: ["unchanged(individuals)", "front_number >= 1", "len(pareto_front) == front_number", "pf_wf(pareto_front, individuals)",
-                 "doml_wf(individuals, len(individuals))", "front1_exact(self, individuals)", "fronts_pos(individuals)"],
+                 "doml_wf(individuals, len(individuals))", "doml_sound(self, individuals)", "prev_dom(self, individuals)",
+                 "front1_exact(self, individuals)", "fronts_pos(individuals)"],
              5: ["unchanged(individuals)", "front_number >= 2", "len(pareto_front) == front_number", "pf_wf(pareto_front, individuals)",
-                 "doml_wf(individuals, len(individuals))", "front1_exact(self, individuals)", "fronts_pos(individuals)",
-                 "_it is pareto_front[front_number - 2]", "_k <= len(_it)", "stable(_it)"],
+                 "doml_wf(individuals, len(individuals))", "doml_sound(self, individuals)", "prev_dom(self, individuals)",
+                 "front1_exact(self, individuals)", "fronts_pos(individuals)",
+                 "_it is pareto_front[front_number - 2]", "_k <= len(_it)", "stable(_it)", "pareto_front is not individuals", "pareto_front[front_number - 1] is not individuals",
+                 "pareto_front[front_number - 2] is not individuals", "pareto_front[front_number - 1] is not pareto_front[front_number - 2]",
+                 "pareto_front[front_number - 1] is not pareto_front", "pareto_front[front_number - 2] is not pareto_front"],
              6: ["unchanged(individuals)", "front_number >= 2", "len(pareto_front) == front_number", "pf_wf(pareto_front, individuals)",
-                 "doml_wf(individuals, len(individuals))", "front1_exact(self, individuals)", "fronts_pos(individuals)",
+                 "doml_wf(individuals, len(individuals))", "doml_sound(self, individuals)", "prev_dom(self, individuals)",
+                 "front1_exact(self, individuals)", "fronts_pos(individuals)",
                  "_it5 is pareto_front[front_number - 2]", "_k5 < len(_it5)", "stable(_it5)", "p is _it5[_k5]",
-                 "_k6 <= len(doml(p))"],
-             7: ["unchanged(individuals)", "front1_exact(self, individuals)", "fronts_pos(individuals)", "stable(pareto_front)",
+                 "_k6 <= len(doml(p))", "pareto_front is not individuals", "pareto_front[front_number - 1] is not individuals",
+                 "pareto_front[front_number - 2] is not individuals", "pareto_front[front_number - 1] is not pareto_front[front_number - 2]",
+                 "pareto_front[front_number - 1] is not pareto_front", "pareto_front[front_number - 2] is not pareto_front"],
+             7: ["unchanged(individuals)", "front1_exact(self, individuals)", "fronts_pos(individuals)", "prev_dom(self, individuals)",
+                 "stable(pareto_front)",
                  "_k <= len(pareto_front)",
                  "forall(lambda k: valid(pareto_front[k]) and pareto_front[k] is not pareto_front and front_wf(pareto_front[k]) and "
                  "distinct_list(pareto_front[k]) and forall(lambda t: exists(lambda c: pareto_front[k][t] is individuals[c], 0, len(individuals)), "
                  "0, len(pareto_front[k])), _k, len(pareto_front))",
                  "forall(lambda k, l: implies(k != l, pareto_front[k] is not pareto_front[l]), (0, len(pareto_front)), (0, len(pareto_front)))"]},
+         ghost={"after:q = self.individual(individuals, individual_id)": [
+                    "assert not is_none(q)", "assert len(q.costs_signed) == len(individuals[0].costs_signed)",
+                    "assert not is_none(fr(p)) and fr(p) == front_number - 1",
+                    "assert exists(lambda c, b: p is individuals[c] and q is individuals[b] and domidx(self, individuals, c, b), "
+                    "(0, len(individuals)), (0, len(individuals)))"],
+                "after:p.features['front_number'] = front_number": [
+                    "assert len(p.costs_signed) == len(individuals[0].costs_signed)"]},
          modifies=_FMOD, allocates=["$list.Ref", "$len.Ref", "$list.Int", "$len.Int"])
